@@ -231,6 +231,40 @@ package lalr
 //@   ensures forall k in old(len(a.table))..len(a.table) :: a.table[k] == 0 && a.check[k] == 0
 //@   ensures (fresh(a.table) || samearray(a.table, old(a.table))) && (fresh(a.check) || samearray(a.check, old(a.check)))
 
+// ---- LR(0) items (C01, C03): "right" is all rules flattened, rule i ending in the sentinel -1-i ----
+
+// rule(item): the rule an item belongs to = the first sentinel at or after it
+//@ func compiler.rule
+//@   requires 0 <= item && exists j in item..len(c.right) :: c.right[j] < 0
+//@   ensures result >= 0 && exists j in item..len(c.right) :: c.right[j] == -1 - result && forall k in item..j :: c.right[k] >= 0
+//@   loop 1:
+//@     invariant item <= i && (exists j in i..len(c.right) :: c.right[j] < 0) && forall k in item..i :: c.right[k] >= 0
+
+// gotoState: the first shift target of the state that is entered on sym, or -1 when there is none
+//@ func compiler.gotoState
+//@   requires 0 <= state && state < len(c.states) && c.states[state] != nil
+//@   requires forall k in 0..len(c.states[state].shifts) :: 0 <= c.states[state].shifts[k] && c.states[state].shifts[k] < len(c.states) && c.states[c.states[state].shifts[k]] != nil
+//@   ensures result == -1 ==> forall k in 0..len(c.states[state].shifts) :: c.states[c.states[state].shifts[k]].symbol != sym
+//@   ensures result != -1 ==> exists k in 0..len(c.states[state].shifts) :: c.states[state].shifts[k] == result && c.states[result].symbol == sym && forall q in 0..k :: c.states[c.states[state].shifts[q]].symbol != sym
+//@   loop 1:
+//@     invariant 0 <= @i && @i <= len(c.states[state].shifts)
+//@     invariant forall q in 0..@i :: c.states[c.states[state].shifts[q]].symbol != sym
+
+// stateClosure: the items of a state = its core plus, for every core item with a nonterminal after the
+// dot, all items of that nonterminal's closure set (an input state: the closure set of its nonterminal).
+//@ pred closureRows(c *compiler, out BitSet) = len(c.right) <= 32*len(out) && forall k in 0..len(c.rules) :: len(c.rules[k]) == len(out) && otherarray(c.rules[k], out)
+//@ func compiler.stateClosure
+//@   option slice-wf
+//@   requires state != nil && c.grammar != nil && 0 <= state.index && closureRows(c, out)
+//@   requires state.index < len(c.grammar.Inputs) ==> 0 <= c.grammar.Inputs[state.index].Nonterminal - c.grammar.Terminals && c.grammar.Inputs[state.index].Nonterminal - c.grammar.Terminals < len(c.rules)
+//@   requires forall k in 0..len(state.core) :: 0 <= state.core[k] && state.core[k] < len(c.right) && c.right[state.core[k]] - c.grammar.Terminals < len(c.rules)
+//@   modifies out[0:len(out)]
+//@   ensures state.index < len(c.grammar.Inputs) ==> forall j in 0..len(c.right) :: bit(out, j) == bit(c.rules[c.grammar.Inputs[state.index].Nonterminal - c.grammar.Terminals], j)
+//@   ensures state.index >= len(c.grammar.Inputs) ==> forall j in 0..len(c.right) :: bit(out, j) <==> exists k in 0..len(state.core) :: state.core[k] == j || (c.right[state.core[k]] >= c.grammar.Terminals && bit(c.rules[c.right[state.core[k]] - c.grammar.Terminals], j))
+//@   loop 1:
+//@     invariant 0 <= @i && @i <= len(state.core)
+//@     invariant forall j in 0..len(c.right) :: bit(out, j) <==> exists k in 0..@i :: state.core[k] == j || (c.right[state.core[k]] >= c.grammar.Terminals && bit(c.rules[c.right[state.core[k]] - c.grammar.Terminals], j))
+
 // ---- nullable nonterminals (C01, C03): the least set closed under "every non-marker symbol of some rule is empty" ----
 
 // ruleEmpty(c, r): every symbol on the right-hand side of rule r is a state marker or marked empty
